@@ -368,6 +368,11 @@ def search(res, tier, boost=False):
         local += [('Singular', 'UnitSquare'), ('MildSingular', 'LShape'), ('Dirichlet', 'PiSquare')]
     for (p, d) in local:
         combos.append((p, d, 0, [rng.choice(['t', 't', 's']) for _ in range(rng.randint(2, 4))]))
+    # the same on a once uniformly refined mesh: more than 10 elements (the matrix is assembled by the large-matrix path,
+    # N*M >= 100) with leaves of different time levels that start at the same time
+    combos.append(('Dirichlet', 'UnitSquare', 1, ['t', 't', 's', 't']))
+    if tier == 'thorough' or boost:
+        combos.append(('MildSingular', 'Circle', 1, ['t', 's', 't']))
     # the driver (example.py) runs all problems against ONE cache directory per value of the straight-panel switch
     import shutil
     import tempfile
@@ -412,7 +417,10 @@ def search(res, tier, boost=False):
                     continue
                 Phi = np.linalg.solve(mat, rhs)
                 residual = ErrorEstimator.residual(None, elems, Phi, SL, M0u0, g, SL_exact_eval=pw)
+            sample_idx = set(range(len(elems))) if len(elems) <= 10 or tier == 'thorough' else set(rng.sample(range(len(elems)), 5))
             for i, e in enumerate(elems):
+                if i not in sample_idx:
+                    continue      # quick tier: the element means of a sample of the elements of the larger meshes
                 ta, tb = map(float, e.time_interval)
                 xa, xb = map(float, e.space_interval)
                 # composite rule with breaks at every mesh level inside the element (the residual has kinks there)
